@@ -74,12 +74,18 @@ def strip_comments(text):
 
 
 def coq_sources():
+    """The development = every file listed in _CoqProject (only those are built and can be imported by a Props file)
+    plus the extraction script; other .v files lying in the tree (work in progress) are not part of it."""
     res = []
-    for root, _, files in os.walk(COQ):
+    for line in open(os.path.join(COQ, '_CoqProject')):
+        line = line.strip()
+        if line.endswith('.v'):
+            res.append(os.path.join(COQ, line))
+    for root, _, files in os.walk(os.path.join(COQ, 'Extract')):
         for f in files:
             if f.endswith('.v'):
                 res.append(os.path.join(root, f))
-    return sorted(res)
+    return sorted(set(res))
 
 
 def forbidden_scan():
